@@ -219,9 +219,11 @@ def explore(run, scale=1):
     for i in range(n):
         seed = progfam._seed_for(run.seed, "C16", i)
         jobs.append((seed, dict(cli=(i % 8 == 0), dup=(i % 4 == 1))))
-    ctx = multiprocessing.get_context("fork")
-    with ctx.Pool(min(progfam.WORKERS, max(1, n // 4))) as pool:
-        recs = pool.map(_work, jobs, chunksize=2)
+    recs = []
+    for job, rec in progfam.parallel_map(_work, jobs):
+        if rec is progfam.LOST: run.count("skipped:worker died or hung"); continue
+        recs.append(rec)
+    recs.sort(key=lambda r: r.get("seed", 0))
     d = common.Driver()
     for rec in recs:
         if "infra" in rec: raise common.Infra(rec["infra"])
